@@ -72,4 +72,42 @@ STATUS = {
               "off market placement only marks Rejected + end_time; insertions do not depend on the flag; the flag has exactly two constant writers that "
               "write nothing else, no copy exists, and the Market/Env/MarketEnv toggles reach every book and the same-named toggle."),
         note=TRUST),
+    "C07": dict(
+        claimed=True,
+        technique="writer/reader table agreement read from the MIR of the generated serde impls + loader provenance/typestate (loader mode) + sibling comparison of save/load + panic census of the load path",
+        text=("Decides the structural core of snapshot fidelity: the serialised key set equals the reader struct's accepted key set by name and type, "
+              "no field of any serialised type is skipped/renamed/defaulted beyond the rebuilt indexes; the loader copies every other field from the "
+              "same-named reader field and rebuilds the indexes by filing exactly the Active entries on their own side under stored key/id/remaining "
+              "volume over all entries (establishes invariant I from the order table alone); save/load are siblings that only propagate errors; no "
+              "undischarged panic site on the load path. Value-level round-trip equality and serde_json's handling of truncated bytes are trusted."),
+        note=TRUST + "serde_json rejects strict prefixes of an object document (trusted)."),
+    "C08": dict(
+        claimed=True,
+        technique="shape rules on the step CFG (take, single enumerate loop, dominance of clock writes over process_event, origin of the time expressions), mutator census, dispatch name-role agreement, sibling comparison Env/MarketEnv",
+        text=("Decides: the queue is emptied by mem::take and exactly that batch is iterated once, every item gets `start + index` then one process_event, "
+              "the clock ends at `start + step_size`, the volume reset precedes the loop, nothing else mutates the book; process_event dispatches all three "
+              "instruction kinds with fields bound by name; submission functions queue exactly one same-named event. Replay equivalence with a plain book "
+              "is by construction (the step drives its own OrderBook through the public API)."),
+        note=TRUST + "Batch sizes up to the step size."),
+    "C10": dict(
+        claimed=True,
+        technique="sound effect (mod) analysis with closure and cross-crate summaries; writer census of the cached snapshot; signature scan for mutable hand-outs",
+        text=("Proof-level for the effect clause: the computed may-write sets of the six submission functions are contained in {queue} (+ order-table "
+              "append for place_order); unknown callees are over-approximated as writing everything below their &mut arguments and none remain. The "
+              "cached snapshot has one assignment (end of step, from the live data) plus construction; no public API returns mutable access."),
+        note=TRUST + "Soundness of the effect analysis rests on: no interior mutability (checked), no unsafe (none in the workspace), std semantics of push/take."),
+    "C11": dict(
+        claimed=True,
+        technique="side-qualifier / quantity agreement of push origins against the frozen (bid, ask) conventions; loop-range and index-equality checks; writer census; getter origin checks",
+        text=("Decides alignment and faithfulness structurally: one push per series per step, each series fed from the same-side same-quantity field at the "
+              "same level index, per-asset indexes agree, traded volume read from the counter after the loop, no other writers, getters return the series "
+              "their names say."),
+        note=TRUST),
+    "C15": dict(
+        claimed=True,
+        technique="resolved-callee and argument provenance of the shuffle call, dominance over the loop, deny list of reordering calls on the batch, Cargo.lock pin",
+        text=("Decides the reduction to the trusted library (not the statistics): one unconditional rand SliceRandom::shuffle of the whole batch with the "
+              "step's generator, nothing reorders or drops afterwards, no other randomness in step, rand 0.8.5 pinned. Uniformity of Fisher-Yates and "
+              "generator quality are trusted; no frequencies are measured."),
+        note=TRUST + "rand 0.8.5 shuffle is Fisher-Yates driven only by the passed generator."),
 }
